@@ -38,11 +38,11 @@ type fsParty struct {
 }
 
 type c08run struct {
-	s       *Sess
-	o       *sim.Outcome
-	p       [2]*fsParty
-	v3      bool
-	events  map[string]bool
+	s      *Sess
+	o      *sim.Outcome
+	p      [2]*fsParty
+	v3     bool
+	events map[string]bool
 }
 
 func akeTypesIn(out [][]byte) (commit, dhkey bool) {
